@@ -11,6 +11,7 @@ mod corpus;
 mod entry;
 mod honest;
 mod jsonfmt;
+mod miri;
 mod mutate;
 mod util;
 
@@ -24,6 +25,8 @@ fn main() {
     match raw.get(1).map(|s| s.as_str()) {
         Some("C05-child") => c05::child_main(&raw[2..]),
         Some("C05-one") => c05::one_main(&raw[2..]),
+        Some("C05-miri") => miri::miri_main(&raw[2..]),
+        Some("C04-time-verify") => c04::time_verify_main(&raw[2..]),
         _ => {}
     }
     let args = vcore::parse_args();
